@@ -55,6 +55,28 @@ def cases():
             dict(kind='rule', dirs=['export'], name='S', body=choice(seq(F(fname, 'A'), F('o', 'A')))),
             dict(kind='rule', dirs=['string'], name='A', body=choice(seq(lit('a'))))],
             inputs=[('S', 'aa')]))
+    # known findings K3i / K3n / K3p / K3c / K3m (C03, same class as K3): more names that collide with the generated code
+    out.append(dict(id='corpusK3i', tags=['corpus', 'known_K3i'], solo=True, rules=[
+        dict(kind='rule', dirs=['export'], name='S', body=choice(seq(('star', choice(seq(F('iterations', 'A'))))))),
+        dict(kind='rule', dirs=['string'], name='A', body=choice(seq(lit('a'))))], inputs=[('S', 'aa')]))
+    out.append(dict(id='corpusK3n', tags=['corpus', 'known_K3n'], solo=True, rules=[
+        dict(kind='rule', dirs=['export'], name='S', body=choice(seq(('star', choice(seq(F('new_state', 'A'))))))),
+        dict(kind='rule', dirs=['string'], name='A', body=choice(seq(lit('a'))))], inputs=[('S', 'aa')]))
+    out.append(dict(id='corpusK3p', tags=['corpus', 'known_K3p'], solo=True, rules=[
+        dict(kind='rule', dirs=['export', 'position'], name='S', body=choice(seq(F('position', 'A')))),
+        dict(kind='rule', dirs=['string'], name='A', body=choice(seq(lit('a'))))], inputs=[('S', 'a')]))
+    out.append(dict(id='corpusK3c', tags=['corpus', 'known_K3c'], solo=True, rules=[
+        dict(kind='rule', dirs=['export', 'memoize'], name='S', body=choice(seq(F(None, 'cached'), F('a', 'A')))),
+        dict(kind='rule', dirs=[], name='cached', body=choice(seq(lit('c')))),
+        dict(kind='rule', dirs=['string'], name='A', body=choice(seq(lit('a'))))], inputs=[('S', 'ca')]))
+    out.append(dict(id='corpusK3m', tags=['corpus', 'known_K3m'], solo=True, rules=[
+        dict(kind='rule', dirs=['export'], name='A', body=choice(seq(F('impl', 'X')), seq(F('impl', 'Y')))),
+        dict(kind='rule', dirs=[], name='X', body=choice(seq(lit('x')))),
+        dict(kind='rule', dirs=[], name='Y', body=choice(seq(lit('y'))))], inputs=[('A', 'x')]))
+    # known finding K7 (C03): a recursive override through a closure becomes a recursive type alias
+    out.append(dict(id='corpusK7', tags=['corpus', 'known_K7'], solo=True, rules=[
+        dict(kind='rule', dirs=['export'], name='List', body=choice(seq(lit('['), ('star', choice(seq(F('@', 'List')))), lit(']'))))],
+        inputs=[('List', '[[][]]')]))
     # known finding K4 (C07): a @leftrec rule entered in front of skippable whitespace: the recursive reference is evaluated
     # after the blank, at another offset than the planted seed => nested complete parse, the outer extension fails, base wins
     out.append(dict(id='corpusK4', tags=['corpus', 'leftrec', 'lrusual', 'known_K4'], rules=[
